@@ -17,6 +17,7 @@ import Driver.C12
 import Driver.C13
 import Driver.C14
 import Driver.C15
+import Driver.C17
 import Driver.C18
 import Driver.C36
 import Driver.C33
@@ -37,6 +38,7 @@ def step (line : String) : String :=
   | "C13" :: ts => stepC13 ts
   | "C14" :: ts => stepC14 ts
   | "C15" :: ts => stepC15 ts
+  | "C17" :: ts => stepC17 ts
   | "C18" :: ts => stepC18 ts
   | "C22" :: ts => stepC22 ts
   | "C23" :: ts => stepC23 ts
